@@ -12,6 +12,7 @@ import (
 	"seehuhn.de/go/sfnt/glyph"
 
 	"seehuhn.de/go/pdf"
+	"seehuhn.de/go/pdf/font/charcode"
 	"seehuhn.de/go/pdf/font/cmap"
 	"seehuhn.de/go/pdf/font/dict"
 	"seehuhn.de/go/pdf/font/encoding"
@@ -53,6 +54,10 @@ func encoderLevel() {
 	for i := 0; i < nCID; i++ {
 		utf8History(i)
 		identityHistory(i)
+	}
+	nCMap := e.Pick(60, 600)
+	for i := 0; i < nCMap; i++ {
+		fromCMapHistory(i)
 	}
 }
 
@@ -475,3 +480,176 @@ func simpleText(enc *simpleenc.Simple, tr *tracer, fontName string, info map[byt
 		e.Line("impl.obs", "%s.soft tu=%s", id, dash(strings.Join(soft, ",")))
 	}
 }
+
+// NewFromCMap with predefined CMaps (one- to four-byte codes, with and without
+// a parent chain) and with CMaps built here.
+var predefinedNames = []string{
+	"Adobe-Japan1-7", "H", "V", "90ms-RKSJ-H", "90ms-RKSJ-V", "EUC-H", "UniJIS-UCS2-H", "UniJIS-UCS2-HW-H", "UniJIS-UCS2-V",
+	"UniJIS-UTF16-H", "UniJIS-UTF8-H", "UniJIS-UTF8-V", "UniJIS-UTF32-H", "UniGB-UCS2-H", "UniGB-UTF16-V", "GBK-EUC-H",
+	"UniCNS-UTF16-H", "B5pc-H", "UniKS-UTF16-H", "KSC-EUC-V", "Adobe-GB1-5", "Adobe-Korea1-2", "Hankaku",
+}
+
+var customNo int
+
+// customCMap builds a CMap with two-byte codes; with a parent (probability 1/2)
+// whose codes the child partly re-maps.
+func customCMap() (string, *cmap.File) {
+	customNo++
+	name := fmt.Sprintf("Custom-%d", customNo)
+	mk := func(base int, n int) *cmap.File {
+		f := &cmap.File{
+			Name:           name,
+			ROS:            &cid.SystemInfo{Registry: "Verif", Ordering: "Custom", Supplement: 0},
+			CodeSpaceRange: charcode.UCS2,
+		}
+		used := map[int]bool{}
+		for k := 0; k < n; k++ {
+			lo := base + e.Rand.IntN(600)
+			if e.Rand.IntN(2) == 0 {
+				ln := 1 + e.Rand.IntN(20)
+				ok := true
+				for x := lo; x < lo+ln; x++ {
+					if used[x] || x&0xff < lo&0xff {
+						ok = false
+					}
+				}
+				if !ok {
+					continue
+				}
+				for x := lo; x < lo+ln; x++ {
+					used[x] = true
+				}
+				f.CIDRanges = append(f.CIDRanges, cmap.Range{
+					First: []byte{byte(lo >> 8), byte(lo)}, Last: []byte{byte((lo + ln - 1) >> 8), byte(lo + ln - 1)},
+					Value: cid.CID(1 + e.Rand.IntN(400)),
+				})
+			} else if !used[lo] {
+				used[lo] = true
+				f.CIDSingles = append(f.CIDSingles, cmap.Single{Code: []byte{byte(lo >> 8), byte(lo)}, Value: cid.CID(e.Rand.IntN(400))})
+			}
+		}
+		return f
+	}
+	child := mk(0x100, 3+e.Rand.IntN(12))
+	if e.Rand.IntN(2) == 0 {
+		child.Parent = mk(0x100, 3+e.Rand.IntN(12))
+	}
+	return name, child
+}
+
+func fromCMapHistory(i int) {
+	var name string
+	var cm *cmap.File
+	if i%3 == 0 {
+		name, cm = customCMap()
+	} else {
+		name = predefinedNames[e.Rand.IntN(len(predefinedNames))]
+		var err error
+		cm, err = cmap.Predefined(name)
+		if err != nil {
+			panic(err)
+		}
+	}
+	w0 := float64(e.Rand.IntN(4) * 250)
+	enc := wrapFromCMap(newTracer(), name, cm)(w0, cm.WMode).(*tracedCID)
+	cids := make([]cid.CID, 0, len(enc.cids))
+	for c := range enc.cids {
+		cids = append(cids, c)
+	}
+	if len(cids) == 0 {
+		return
+	}
+	sortCIDs(cids)
+	pool := make([]cid.CID, 0, 40)
+	for k := 0; k < 8+e.Rand.IntN(30); k++ {
+		pool = append(pool, cids[e.Rand.IntN(len(cids))])
+	}
+	// the CIDs whose code a child CMap re-maps are the interesting ones: look for some
+	for k := 0; k < 400 && len(pool) < 48; k++ {
+		c := cids[e.Rand.IntN(len(cids))]
+		probe, _ := cidenc.NewFromCMap(cm, 0)
+		if code, err := probe.Encode(c, "", 0); err == nil {
+			for fc := range probe.Codes(probe.Codec().AppendCode(nil, code)) {
+				if fc.CID != c {
+					pool = append(pool, c)
+				}
+			}
+		}
+		if cm.Parent == nil {
+			break
+		}
+	}
+	pool = append(pool, 0, cid.CID(70000+e.Rand.IntN(100)))
+	caseInfo := map[string]any{"history": "cidenc-fromcmap", "cmap": name, "n": i, "seed": e.Seed}
+	type rec struct {
+		code  string
+		width float64
+		text  string
+	}
+	first := map[cid.CID]rec{}
+	var order []cid.CID
+	nOps := 1 + e.Rand.IntN(80)
+	recodedSeen := false
+	for k := 0; k < nOps; k++ {
+		c := pool[e.Rand.IntN(len(pool))]
+		t := string(rune(0x21 + int(c)*7%0x2000))
+		w := float64((int(c)*37)%9) * 125
+		if e.Rand.IntN(3) == 0 {
+			enc.GetCode(c, t)
+			continue
+		}
+		code, err := enc.Encode(c, t, w)
+		if err != nil {
+			continue
+		}
+		if enc.recoded {
+			recodedSeen = true
+			b := enc.Codec().AppendCode(nil, code)
+			failRecode(fmt.Sprintf("CMap %s: Encode(CID %d) returns code %x, which the CMap maps to CID %d", name, c, b, cm.LookupCID(b)), caseInfo)
+			continue
+		}
+		if _, seen := first[c]; !seen && c != 0 {
+			first[c] = rec{enc.codeHex(code), w, t}
+			order = append(order, c)
+		}
+	}
+	// every CID shown (with a code that is its own) reads back with its first width and text
+	if len(order) > 0 && !recodedSeen {
+		var str pdf.String
+		var toks, mp []string
+		var want []cid.CID
+		for j := 0; j < 1+e.Rand.IntN(8); j++ {
+			c := order[e.Rand.IntN(len(order))]
+			str = append(str, common.UnHex(first[c].code)...)
+			toks = append(toks, first[c].code)
+			mp = append(mp, fmt.Sprintf("%d:%s:%s", c, wbits(first[c].width), thex(first[c].text)))
+			want = append(want, c)
+		}
+		j := 0
+		for code := range enc.Codes(str) {
+			if j < len(want) {
+				r := first[want[j]]
+				if code.CID != want[j] || code.Text != r.text || code.Width != r.width/1000 {
+					fail("cidenc-fromcmap:codes", fmt.Sprintf("CMap %s: string %x element %d: (%d,%q,%g), expected (%d,%q,%g)", name, []byte(str), j, code.CID, code.Text, code.Width, want[j], r.text, r.width/1000), caseInfo)
+				}
+			}
+			j++
+		}
+		if j != len(want) {
+			fail("cidenc-fromcmap:codes", fmt.Sprintf("CMap %s: string %x of %d codes decodes into %d", name, []byte(str), len(want), j), caseInfo)
+		}
+		id := nextID()
+		e.Line("cases.txt", "%s GC %s %s", id, enc.t.inst, strings.Join(toks, " "))
+		e.Line("impl.obs", "%s %d %s", id, len(want), strings.Join(mp, ","))
+	}
+	class := "predefined"
+	if i%3 == 0 {
+		class = "custom"
+	}
+	if cm.Parent != nil {
+		class += "+parent"
+	}
+	e.Count(true, fmt.Sprintf("fromcmap|%s|%d|%d", name, i, nOps), "history:cidenc-fromcmap:"+class)
+}
+
+func sortCIDs(c []cid.CID) { sort.Slice(c, func(i, j int) bool { return c[i] < c[j] }) }
